@@ -315,7 +315,9 @@ class Program:
         for fn in self.listdir('notebooks/templates'):
             if fn.endswith('.ipynb'):
                 rel = 'notebooks/templates/' + fn
-                self.templates[fn] = Template(rel, self.read(rel))
+                t = Template(rel, self.read(rel))
+                self.templates[fn] = t
+                t.module = self._add_module('template:' + fn, rel, '\n'.join(code for code, _ in t.cells))
         rel = 'doc/main.tex'
         if os.path.exists(os.path.join(self.repo, rel)) or rel in self.overrides:
             self.texts['main.tex'] = self.read(rel)
@@ -335,6 +337,7 @@ class Program:
                         m.globals[t.id] = st.value
             elif isinstance(st, ast.AnnAssign) and isinstance(st.target, ast.Name) and st.value is not None:
                 m.globals[st.target.id] = st.value
+        return m
 
     def _add_function(self, m, node, qualname, cls, parent):
         f = FuncInfo(m, node, qualname, cls, parent)
